@@ -109,7 +109,11 @@ class Verifier:
         for n, v in args.items():
             if not (n == "self" and fdef.name == "__init__"):
                 run.assume_typed_deep(v)
-        run.frames.append(Frame(self.qname, fdef, cls, env, mod))
+        from .engine import AliasEnv, set_local_aliases
+        from .registry import recorded_locals
+
+        set_local_aliases(self.qname, fdef, recorded_locals(self.qname))
+        run.frames.append(Frame(self.qname, fdef, cls, AliasEnv(env), mod))
         self.entry_args = args
         self.pre_heap = run.heap.copy()
         cc = Ctx(args, self.pre_heap, self.pre_heap, run=run, alloc0=self.alloc_entry)
